@@ -32,7 +32,18 @@ META = {
                   "record whose stamp is byte-identical to the current stamp (same dependency stamps, rerun clear); never a "
                   "dead or hung process; every character of the stamps of a project whose environment holds every operand-bearing "
                   "opcode damaged (non-alphabet character) and decoded in process as function.load does through a guarded "
-                  "reader, one damaged character per base64 quantum also loaded and built in the subprocess.",
+                  "reader, one damaged character per base64 quantum also loaded and built in the subprocess. Every family is "
+                  "applied to both states of every record, clean and carrying the re-run marker (the state a build leaves "
+                  "while and after a body runs or fails; the one field whose loss means up to date), and three families go "
+                  "beyond single bytes: structure (every byte outside the interior of the stamps deleted / replaced by JSON "
+                  "punctuation), retype (well-formed JSON in which a field's value has another JSON type: every field x every "
+                  "kind of value, dependency entries, duplicated / re-cased / renamed keys, wrapped and doubled records) and "
+                  "multi (2-4 substitutions, bursts, doubled and lost blocks); up to date is accepted only when an independent "
+                  "strict decoding of the corrupted bytes (the harness's own record type, every decoding error an error) is an "
+                  "unmarked record with the current stamps. A four-package project with a shared module has the record of one "
+                  "target per package corrupted and is loaded under three schedules enforced through the loader's observation "
+                  "points (free; the victim's module fails before any other package's module starts; it starts after all "
+                  "the others have finished): the failed read must be reported in each, a load that does not return is a hang.",
     "level_note": "Trusted: Coq kernel; the transcription (validated by the correspondence run only); Go's recover semantics "
                   "(a runtime.Error satisfies the `failure` interface assertion) is validated on the real code by the "
                   "corrupted-input runs, not proved; big.Int.UnmarshalText is modelled in full (base prefixes, underscores); "
@@ -530,10 +541,18 @@ def run_inner(ctx):
         if f[0] == "ORACLE":
             oracles4.append(f)
         else:
-            nrec += 1
+            nrec += (f[2] != "mp-schedule")
             k = "record:%s:%s" % (f[2], f[4])
             rec_dist[k] = rec_dist.get(k, 0) + 1
     ctx.log("record layer: %d corruptions in %.1fs: %s" % (nrec, time.time() - t0, {k: v for k, v in sorted(rec_dist.items())}))
+    lost = {k: v for k, v in rec_dist.items() if ":uptodate-marker-lost-" in k}
+    if lost:
+        ctx.log("note (observed, not judged): %d corruptions of a record carrying the re-run marker are up to date because the "
+                "loader's JSON decoding ignores unknown keys / data after the first value; to a strict reading of the file they "
+                "are not records: %s" % (sum(lost.values()), lost))
+    unenforced = sum(v for k, v in rec_dist.items() if k.startswith("record:mp-schedule:"))
+    if unenforced:
+        ctx.log("note: %d load schedules of project multi could not be enforced (hold released after 5 s)" % unenforced)
 
     # ---- oracle failures on the implementation
     for f in oracles2:
@@ -566,6 +585,8 @@ def run_inner(ctx):
             ctx.violation("diffEnv reason construction: %s for key set %s extra=%s" % (f[1], f[2], f[3]),
                           {"oracle": f[1], "mask": f[2], "extra_key": f[3], "how": "(&function{oldEnv, newEnv}).diffEnv(), see c15reason"})
     shown4, seen4 = [], set()
+    # hangs and deaths first, then the corruptions of a record that carried the re-run marker
+    oracles4.sort(key=lambda f: (f[1] not in ("record-hang", "record-died"), not (f[3].startswith("marked-") or "marked" in f[4])))
     for f in oracles4:                                   # at most two reports per (oracle, record, corruption kind)
         kk = (f[1], f[2], f[3])
         if sum(1 for x in shown4 if (x[1], x[2], x[3]) == kk) < 2 and len(shown4) < 6:
@@ -574,8 +595,11 @@ def run_inner(ctx):
         ctx.log("record layer: %d oracle failures, %d reported" % (len(oracles4), len(shown4)))
     for f in shown4:
         ctx.violation("corrupted record %s (%s %s): %s" % (f[2], f[3], f[4], f[1]),
-                      {"oracle": f[1], "record_file": ".dawn/build/targets/" + f[2].replace("rich/", ""),
-                       "project": "c15RichBuildFile" if f[2].startswith("rich/") else "c15BuildFile", "corruption": f[3], "detail": f[4],
+                      {"oracle": f[1], "record_file": ".dawn/build/targets/" + f[2].split("/", 1)[-1],
+                       "project": ("c15RichBuildFile" if f[2].startswith("rich/") else
+                                   "c15MultiFiles (four packages and a shared module), loaded under the schedule named in detail "
+                                   "(free | first | last: VERIF_C15_SCHED, c15schedule)" if f[2].startswith("multi/") else "c15BuildFile"),
+                       "corruption": f[3], "detail": f[4],
                        "corrupted_record_hex": f[5], "how": ("TestVerifC15Record: decode the stamp (field \"stamp\" of this record) as function.load does: "
                                "pickle.NewDecoder(base64.NewDecoder(base64.StdEncoding, strings.NewReader(stamp)), "
                                "pickle.UnpicklerFunc(envUnpickler)).Decode()") if f[3] == "stamp-b64-inprocess" else
@@ -672,7 +696,11 @@ def run_inner(ctx):
                             "base64 character per quantum (thorough: every character); sampled mutated / random strings: failures "
                             "at random places), %d of them with a failure actually met, %d delivered prefixes not already in the "
                             "streams evaluated by the model; all 1023 key-difference sets through diffEnv; %d record corruptions "
-                            "(in-process stamp decodings with every character damaged + subprocess builds). non-trivial = decodes "
+                            "(in-process stamp decodings with every character damaged + subprocess builds of: truncations, "
+                            "single-byte, structure, retype and multi-byte corruptions of the clean and of the marked (re-run "
+                            "marker set) state of each record of a one-package project, damaged base64 characters of a project "
+                            "with every operand kind, and a corruption menu x 4 victims x 3 load schedules of a four-package "
+                            "project). non-trivial = decodes "
                             "to a value; distinct by (input, unpickler)"
                             % (len(encs), "sampled" if quick else "all", 3000 if quick else 12000, len(directed()), skipped,
                                len(scases), len(sdatas), nfault, len(uniq_c), nrec))
